@@ -298,6 +298,16 @@ func (w *World) RemoteConfig(st *env.Store, withCache bool) *mast.RemoteConfig {
 			return base(a, b)
 		}
 	}
+	if cfg.WideCompare {
+		base := rc.KeyCompare
+		if base == nil {
+			base = mast.DefaultKeyCompare(json.Marshal)
+		}
+		rc.KeyCompare = func(a, b interface{}) (int, error) {
+			c, err := base(a, b)
+			return 3 * c, err
+		}
+	}
 	return rc
 }
 
